@@ -114,6 +114,19 @@ Theorem C04_label_roundtrip :
 Proof. exact label_roundtrip. Qed.
 Print Assumptions C04_label_roundtrip.
 
+(* a str argument that is a label converts to its key WHATEVER the text looks like (even "1", "2.5e1", " 7 ", "NaN"):
+   the table scan precedes decimal.Decimal(text); only a text that is no label is parsed as a number *)
+Theorem C04_label_precedes_parsing :
+  forall s text parsed,
+    (forall k, In (k, text) (sc_values s) ->
+       exists k', phys2raw_arg s (PStr text parsed) = Some k' /\ In (k', text) (sc_values s)) /\
+    (forall k, NoDup (labels (sc_values s)) -> In (k, text) (sc_values s) ->
+       phys2raw_arg s (PStr text parsed) = Some k) /\
+    (~ In text (labels (sc_values s)) ->
+       phys2raw_arg s (PStr text parsed) = match parsed with Some v => phys2raw_num s v | None => None end).
+Proof. exact label_precedes_parsing. Qed.
+Print Assumptions C04_label_precedes_parsing.
+
 (* default limits: calc_min / calc_max (offset + raw*factor, operands the other way round) ARE the physical images
    of the raw range's bounds, as representations, for every signal - min of the raw minimum, max of the raw
    maximum, also for negative factors ... *)
@@ -145,6 +158,7 @@ Example C04_example :
   sc_values s = [(0, 3); (5, 2)] /\
   phys_value s 5 = mkDec (-1485) (-1) /\ named_value s 5 = Label 2 /\ named_value s 7 = Number (mkDec (-1479) (-1)) /\
   phys2raw_num s (mkDec (-1485) (-1)) = Some 5 /\ phys2raw_label s 2 = Some 5 /\
+  phys2raw_arg s (PStr 2 (Some (mkDec 1 0))) = Some 5 /\ phys2raw_arg s (PStr 9 (Some (mkDec 1 0))) = Some 503 /\
   calc_min s = mkDec (-7644) (-1) /\ calc_max s = mkDec (4641) (-1) /\
   phys2raw_num s (calc_min s) = Some (-2048) /\
   dadd (mkDec 9999999999999999999999999999 0) (mkDec 5 (-1)) = mkDec 1000000000000000000000000000 1 /\
